@@ -49,13 +49,13 @@ enum Msg {
 
 fn filler(seed: u64, n: usize) -> String {
     // printable, includes characters that need escaping
-    let alphabet: Vec<char> = "abcXYZ019 _-\"\\\n\u{e9}\u{1F600}/".chars().collect();
+    let alphabet: Vec<char> = "abcXYZ019 _-\"\\\n\u{e9}\u{1F600}/\u{0}\u{1f}\u{7f}".chars().collect();
     let mut x = seed.wrapping_mul(6364136223846793005).wrapping_add(1442695040888963407);
     let mut s = String::new();
     while s.len() < n {
         x = x.wrapping_mul(6364136223846793005).wrapping_add(1442695040888963407);
         let c = alphabet[((x >> 33) as usize) % alphabet.len()];
-        if s.len() + c.len_utf8() + if c == '"' || c == '\\' || c == '\n' { 1 } else { 0 } <= n + 3 {
+        if s.len() + c.len_utf8() + if c == '"' || c == '\\' || c == '\n' { 1 } else if (c as u32) < 0x20 { 5 } else { 0 } <= n + 3 {
             s.push(c);
         } else {
             s.push('a');
